@@ -272,12 +272,35 @@ def run(eng: Engine, ck: Check):
                 # the tokens are copied before the old limiter is replaced, and only an existing old limiter is copied from
                 c_ = eng.cfg(fn)
                 ok = c_.nodes_for(cps[0][0])[0].id < c_.nodes_for(inst[0][0])[0].id
+        if not mk:
+            # the copy as a responsibility of the factory: `self._x = RateLimiter.create_limiter(limit, previous=self._x)` where create_limiter
+            # copies the tokens of `previous` into the limiter it returns (whenever there is a previous one)
+            cl_ = eng.func(RL, 'RateLimiter.create_limiter')
+            inst = pfind(fn.node, f'self._{side}_rate_limiter = RateLimiter.create_limiter({fn.params[1]}, previous=self._{side}_rate_limiter)') + \
+                pfind(fn.node, f'self._{side}_rate_limiter = RateLimiter.create_limiter({fn.params[1]}, self._{side}_rate_limiter)')
+            rets_ = {unparse(r_.value) for r_ in walk_local(cl_.node) if isinstance(r_, ast.Return) and r_.value is not None}
+            prev_ = cl_.params[2] if len(cl_.params) > 2 else None
+            cps = [x for x in calls_in(cl_.node) if call_name(x) == 'copy_tokens' and isinstance(x.func, ast.Attribute) and {unparse(x.func.value)} == rets_ and
+                   prev_ is not None and len(x.args) == 1 and unparse(x.args[0]) == prev_ and
+                   all(mentions_name(e_, prev_) and ((pol_ and isinstance(e_, ast.Name)) or
+                                                     (isinstance(e_, ast.Compare) and len(e_.ops) == 1 and is_none_const(e_.comparators[0]) and
+                                                      ((pol_ and isinstance(e_.ops[0], ast.IsNot)) or (not pol_ and isinstance(e_.ops[0], ast.Is)))))
+                       for e_, pol_, _ in eng.guards_at(cl_, x))]
+            loops = [n for n in walk_local(fn.node) if isinstance(n, ast.For) and unparse(n.iter) == 'self.peer_connections' and isinstance(n.target, ast.Name)
+                     and phas(n, f'{n.target.id}.{side}_rate_limiter = self._{side}_rate_limiter')]
+            ok = len(inst) == 1 and len(cps) == 1 and len(loops) == 1 and not eng.guards_at(fn, inst[0][0]) and not eng.guards_at(fn, loops[0]) and \
+                eng.cfg(fn).nodes_for(inst[0][0])[0].id < eng.cfg(fn).nodes_for(loops[0])[0].id
         ck.ob('R-C20-SHARED', fn, fn.node, f'{fn.name}: builds the limiter with create_limiter(limit), copies tokens from the old {side} limiter, installs it and '
               're-assigns it to every registered connection', ok, '', construct=f'{fn.name} shape')
     cl = eng.func(RL, 'RateLimiter.create_limiter')
     rows = {}
     for r in [n for n in walk_local(cl.node) if isinstance(n, ast.Return)]:
         g = [(unparse(e), pol) for e, pol, _ in eng.guards_at(cl, r)]
+        if isinstance(r.value, ast.Name) and not g:
+            # `limiter = A() / B(..)` in the two branches, returned at the end: the assignments carry the table
+            for a_ in [n for n in walk_local(cl.node) if isinstance(n, ast.Assign) and len(n.targets) == 1 and unparse(n.targets[0]) == r.value.id]:
+                rows[unparse(a_.value)] = [(unparse(e), pol) for e, pol, _ in eng.guards_at(cl, a_)]
+            continue
         rows[unparse(r.value)] = g
     ok = rows.get('UnlimitedRateLimiter()') == [('limit_kbps == 0', True)] and rows.get('LimitedRateLimiter(limit_kbps)') == [('limit_kbps == 0', False)]
     ck.ob('R-C20-SHARED', cl, cl.node, 'create_limiter(0) is the unlimited limiter, anything else a limited one with that limit', ok, f'{rows}', construct='create_limiter table')
